@@ -234,7 +234,30 @@ func (g *Gen) RangeFilter(depth int) types.Map {
 		}
 		return types.NewSlice(vs...)
 	}
-	switch g.R.Weighted([]int{5, 3, 4, 2, 2, 4}) {
+	switch g.R.Weighted([]int{5, 3, 4, 2, 2, 4, 4}) {
+	case 6:
+		// $or over a PAIR of keys that a compound index may cover: some branches bound both keys, some
+		// leave the second (or the first) free – the planner's union must drop a bound that a later
+		// branch does not have (seeded change c11b kept it; detection used to depend on the seed)
+		g.hit("range:$or-key-pair")
+		pair := lib.Pick(g.R, [][2]string{{"a", "b"}, {"b", "a"}, {"a", "n.x"}, {"id", "a"}, {"b", "n.x"}})
+		n := g.R.Range(2, 3)
+		vs := make([]types.Value, n)
+		for i := range vs {
+			ps := []types.Value{}
+			switch g.R.Intn(4) {
+			case 0: // both keys
+				ps = append(ps, S(pair[0]), rng(pair[0]), S(pair[1]), rng(pair[1]))
+			case 1: // both, first by equality
+				ps = append(ps, S(pair[0]), g.FieldValue(pair[0]), S(pair[1]), rng(pair[1]))
+			case 2: // first key only
+				ps = append(ps, S(pair[0]), rng(pair[0]))
+			default: // second key only
+				ps = append(ps, S(pair[1]), rng(pair[1]))
+			}
+			vs[i] = types.NewMap(ps...)
+		}
+		return types.NewMap(S("$or"), types.NewSlice(vs...))
 	case 5:
 		// every branch of a top-level $or constrains the SAME key (often the always-indexed id), with
 		// bounded, half-open and point branches in any order – what the planner's union has to widen
